@@ -12,7 +12,7 @@
    follow from C08/C09/C16/C19 (sections 6 ...). *)
 From Coq Require Import List ZArith Lia Bool Permutation.
 From Moc Require Import Base Match MatchProofs Msg Cache Handlers System.
-From Moc Require Merge MergeProofs MergeAggProofs Router RouterLemmas RouterProofs.
+From Moc Require Merge MergeProofs MergeAggProofs Router RouterLemmas.
 Import ListNotations.
 Open Scope Z_scope.
 
@@ -68,6 +68,33 @@ Proof.
   - intros [x [Hx <-]]. exists (Some x). split; [exact Hx | now left].
 Qed.
 
+(** [Router.visit_loop] in closed form (C07: visit_loop_spec,
+    matching_subs_keys; restated here so that this file does not depend on the
+    proof files of the router's multi-connection transition system) *)
+Definition matching_subs (e : event) (m : Router.submap) : list str :=
+  List.map fst (filter (fun kv => Router.sub_matches e (snd kv)) m).
+
+Lemma visit_loop_spec buf e t m : forall q,
+  Router.visit_loop buf e t m q =
+  q ++ List.map (fun sub => Router.MEvent sub e t) (firstn (buf - length q) (matching_subs e m)).
+Proof.
+  induction m as [|[sub fs] m IH]; intro q; cbn [Router.visit_loop matching_subs filter List.map snd].
+  - rewrite firstn_nil. cbn. now rewrite app_nil_r.
+  - fold (matching_subs e m). destruct (Router.sub_matches e fs) eqn:Hm.
+    + destruct (Nat.ltb (length q) buf) eqn:Hlt.
+      * apply Nat.ltb_lt in Hlt. rewrite IH, app_length. cbn [length List.map fst].
+        destruct (buf - length q)%nat as [|k] eqn:Ek; [lia|].
+        replace (buf - (length q + 1))%nat with k by lia. cbn [firstn List.map]. now rewrite <- app_assoc.
+      * apply Nat.ltb_ge in Hlt. rewrite IH. replace (buf - length q)%nat with 0%nat by lia. reflexivity.
+    + apply IH.
+Qed.
+
+Lemma matching_subs_keys e m k : In k (matching_subs e m) -> In k (List.map fst m).
+Proof.
+  unfold matching_subs. intro H. apply in_map_iff in H as [[k' v] [E H]]. apply filter_In in H as [H _].
+  cbn in E. subst. change k with (fst (k, v)). now apply in_map.
+Qed.
+
 (* ------------------------------------------------------------------ *)
 (** * 1. One step *)
 
@@ -77,6 +104,9 @@ Section Proofs.
   Variable insert_batch : db -> list event -> db.
   Variable bulk : nat.
   Variable buflen : nat.
+  (** an invariant of the store under which its answers are gated (for the
+      relational model of Sql.v: "every stored event has no empty tag") *)
+  Variable dbok : db -> Prop.
 
   Notation sysT := (sys db).
   Notation step := (sys_step db query insert_batch bulk buflen).
@@ -124,7 +154,7 @@ Section Proofs.
       step_kind s x s' t1 o1
   | SK_panic ord m rest :
       x = LNext ord -> y_dead s = false -> y_in s = m :: rest -> cache_base (y_cache s) m = Panic ->
-      y_dead s' = true -> step_kind s x s' t1 o1.
+      y_in s' = rest -> y_done s' = y_done s ++ [m] -> y_dead s' = true -> step_kind s x s' t1 o1.
 
   Lemma step_cases s x s' t1 o1 : step s x = (s', t1, o1) -> step_kind s x s' t1 o1.
   Proof.
@@ -392,9 +422,15 @@ Section Proofs.
   Definition reply_gated (m : smsg) : Prop :=
     match m with SEvent _ e => tags_nonempty e | _ => True end.
 
-  (** every event the store child returns has no empty tag *)
-  Definition query_gated : Prop :=
-    forall d fs evs, query d fs = Some evs -> Forall tags_nonempty evs.
+  (** the store keeps [dbok] when gated events are inserted, and a store that
+      satisfies it returns only events without an empty tag *)
+  Definition store_ok : Prop :=
+    (forall d b, dbok d -> Forall tags_nonempty b -> dbok (insert_batch d b)) /\
+    (forall d fs evs, dbok d -> query d fs = Some evs -> Forall tags_nonempty evs).
+
+  (** the SQLite handler: database, channel and batch buffer hold gated events *)
+  Definition sq_ok (q : sqstate db) : Prop :=
+    dbok (sq_db q) /\ Forall tags_nonempty (sq_queue q) /\ Forall tags_nonempty (sq_buf q).
 
   (** the cache child never answers with an event that has an empty tag, along
       the messages still to come (discharged from the gate in section 9) *)
@@ -501,11 +537,11 @@ Section Proofs.
   Lemma live_copies_shape e m qlen z :
     In z (live_copies buflen e m qlen) -> exists sub, z = SEvent sub e /\ In sub (List.map fst m).
   Proof.
-    unfold live_copies. rewrite RouterProofs.visit_loop_spec.
+    unfold live_copies. rewrite visit_loop_spec.
     rewrite skipn_app, repeat_length, Nat.sub_diag, skipn_all2 by (rewrite repeat_length; lia).
     cbn [app skipn]. rewrite map_map. intro H. apply in_map_iff in H as [sub [<- Hs]].
     exists sub. split; [reflexivity|].
-    eapply RouterProofs.matching_subs_keys. eapply firstn_In_local. exact Hs.
+    eapply matching_subs_keys. eapply firstn_In_local. exact Hs.
   Qed.
 
   Lemma filter_none_in {A} (p : A -> bool) l : (forall z, In z l -> p z = false) -> filter p l = [].
@@ -549,13 +585,35 @@ Section Proofs.
   Qed.
 
   Lemma sqlite_reply_gated sq m sq' ch :
-    query_gated -> sqlite_reply db query sq m = (sq', ch) -> Forall reply_gated (chan_items ch).
+    store_ok -> sq_ok sq -> sqlite_reply db query sq m = (sq', ch) -> Forall reply_gated (chan_items ch).
   Proof.
-    intros Hq. destruct m as [e|sub fs|sub|e|sub fs]; cbn [sqlite_reply default_reply]; intro H; inversion H; subst; cbn [chan_items];
+    intros [_ Hq] [Hdb _]. destruct m as [e|sub fs|sub|e|sub fs]; cbn [sqlite_reply default_reply]; intro H; inversion H; subst; cbn [chan_items];
       try (repeat constructor; fail).
     destruct (query _ fs) as [evs|] eqn:Eq; [|repeat constructor].
     apply Forall_app. split; [|repeat constructor]. apply Forall_forall. intros z Hz.
-    apply in_map_iff in Hz as [x [<- Hx]]. cbn. specialize (Hq _ _ _ Eq). rewrite Forall_forall in Hq. now apply Hq.
+    apply in_map_iff in Hz as [x [<- Hx]]. cbn. specialize (Hq _ _ _ Hdb Eq). rewrite Forall_forall in Hq. now apply Hq.
+  Qed.
+
+  Lemma sqlite_reply_ok sq m sq' ch :
+    sq_ok sq -> cmsg_gate m -> sqlite_reply db query sq m = (sq', ch) -> sq_ok sq'.
+  Proof.
+    intros [H1 [H2 H3]] Gm. destruct m as [e|sub fs|sub|e|sub fs]; cbn [sqlite_reply default_reply]; intro H; inversion H; subst; cbn;
+      try (split; [|split]; assumption).
+    split; [exact H1|]. split; [|exact H3]. apply Forall_app. split; [exact H2|]. constructor; [exact Gm | constructor].
+  Qed.
+
+  Lemma bg_step_ok q b : store_ok -> sq_ok q -> sq_ok (bg_step db insert_batch bulk q b).
+  Proof.
+    intros [Hins _] Hok. pose proof Hok as [H1 [H2 H3]]. destruct b; cbn [bg_step].
+    - unfold recv_step. destruct (sq_queue q) as [|e qq] eqn:Eq; [exact Hok|].
+      inversion H2 as [|? ? He Hqq]; subst.
+      destruct (mem_str (ev_id e) (sq_seen q)); [split; [|split]; assumption|].
+      destruct (Nat.leb bulk (length (sq_buf q ++ [e]))); cbn.
+      + split; [|split]; [|exact Hqq|constructor]. apply Hins; [exact H1|].
+        apply Forall_app. split; [exact H3|]. constructor; [exact He|constructor].
+      + split; [exact H1|]. split; [exact Hqq|]. apply Forall_app. split; [exact H3|]. constructor; [exact He|constructor].
+    - unfold tick_step. destruct (sq_buf q) as [|e bb] eqn:Eb; [exact Hok|]. cbn.
+      split; [|split]; [|exact H2|constructor]. apply Hins; [exact H1 | exact H3].
   Qed.
 
   (* ---------------------------------------------------------------- *)
@@ -655,6 +713,7 @@ Section Proofs.
       i_io : y_done (a_sys a) ++ y_in (a_sys a) = msgs;
       i_G : forall i z, In z (pend (a_sys a) i) -> reply_gated z;
       i_CG : cache_gated_from (y_cache (a_sys a)) (y_in (a_sys a));
+      i_sq : sq_ok (y_sq (a_sys a));
       i_tok : Merge.trace_ok 3 (a_trace a);
       i_nok : forall i id, (i < 3)%nat ->
         (length (filter (sel_okid id) (del i (a_trace a))) + length (ok_of id (pend (a_sys a) i)))%nat =
@@ -671,7 +730,8 @@ Section Proofs.
     }.
 
     Hypothesis Hgate : gated msgs.
-    Hypothesis Hq : query_gated.
+    Hypothesis Hq : store_ok.
+    Hypothesis Hd0 : dbok d0.
 
     Lemma snoc_split {A} (h h1 h2 : list A) x y :
       h ++ [x] = h1 ++ y :: h2 ->
@@ -770,6 +830,7 @@ Section Proofs.
       - reflexivity.
       - intros [|[|[|i]]] z H; contradiction.
       - exact HC.
+      - split; [exact Hd0|]. split; constructor.
       - constructor.
       - intros i id _. destruct i as [|[|[|i]]]; reflexivity.
       - intros i sub _. destruct i as [|[|[|i]]]; reflexivity.
@@ -787,7 +848,7 @@ Section Proofs.
       destruct a as [[s t] o]. intros I Hd. unfold sys_step_acc in *.
       destruct (step s x) as [[s' t1] o1] eqn:E. unfold a_sys, a_trace in *. cbn [fst snd] in *.
       pose proof (step_cases _ _ _ _ _ E) as K.
-      destruct I as [Iio IG ICG Itok Inok Incnt Iaio Ishape Isubs Icl Ics].
+      destruct I as [Iio IG ICG Isq Itok Inok Incnt Iaio Ishape Isubs Icl Ics].
       unfold a_sys, a_trace in *. cbn [fst snd] in *.
       destruct K as [Et Eo Hm Hc Hs H0 H1 H2 Hin Hdone Hdd Hsq
                     |ord m rest c' ch0 sq' ch2 Ex Hal Hin Hcb Hsr Et Eo Hm Hc Hs Hsq H0 H1 H2 Hin' Hdone Hdd
@@ -799,6 +860,7 @@ Section Proofs.
         constructor; unfold a_sys, a_trace, P; cbn [fst snd];
           rewrite ?Hdone, ?Hin, ?Hc, ?Hs; auto.
         + intros i z. rewrite Hp. apply IG.
+        + destruct Hsq as [->|[b [_ ->]]]; [exact Isq | now apply bg_step_ok].
         + intros i id Hi. rewrite Hp. now apply Inok.
         + intros i sub Hi. rewrite Hp. now apply Incnt.
         + intros i z Hi. rewrite Hp. now apply Ishape.
@@ -823,8 +885,9 @@ Section Proofs.
           destruct i as [|[|[|i]]]; cbn [new_of] in Hz; [| | |contradiction].
           * rewrite Forall_forall in ICG0. now apply ICG0.
           * specialize (Sr3 z Hz). destruct z; cbn; auto. destruct Sr3 as [-> _]. exact Gm.
-          * pose proof (sqlite_reply_gated _ _ _ _ Hq Hsr) as F. rewrite Forall_forall in F. now apply F.
+          * pose proof (sqlite_reply_gated _ _ _ _ Hq Isq Hsr) as F. rewrite Forall_forall in F. now apply F.
         + rewrite Hc, Hin'. exact ICG'.
+        + rewrite Hsq. now apply (sqlite_reply_ok _ _ _ _ Isq Gm Hsr).
         + unfold Merge.trace_ok. apply Forall_app. split; [exact Itok|].
           destruct m; cbn [client_input opt_list]; repeat constructor. exact Gm.
         + intros i id Hi. rewrite del_app, del_client, app_nil_r, Hp, ok_of_app, app_length, (Nok i id Hi),
@@ -858,6 +921,7 @@ Section Proofs.
         + now rewrite Hdone, Hin.
         + intros i z Hz. apply (IG i). now apply Hsub.
         + now rewrite Hc, Hin.
+        + now rewrite Hsq.
         + unfold Merge.trace_ok. apply Forall_app. split; [exact Itok|]. constructor; [|constructor].
           specialize (IG _ _ Hmem). destruct m; cbn [to_m Merge.input_ok reply_gated] in *; auto.
         + intros i id Hi. rewrite del_app, filter_app, app_length, count_occ_b_app. cbn [count_occ_b Merge.is_cevent_of].
@@ -1164,5 +1228,839 @@ Section Proofs.
           exists tail. change (Merge.ok_prefix ro ++ Merge.ok_text ro) with (Merge.ok_message ro).
           rewrite Hmsg. unfold Merge.ok_message. rewrite Hs1, Hs2. now rewrite app_assoc.
     Qed.
+
+    (* -------------------------------------------------------------- *)
+    (** * 9. Segments of a run; what is labelled with a subscription id *)
+
+    Lemma seg_ind (Phi : sysT -> list Merge.input -> Prop) s0 :
+      Phi s0 [] ->
+      (forall s w x s' t1 o1, Phi s w -> step s x = (s', t1, o1) -> y_dead s' = false -> Phi s' (w ++ t1)) ->
+      forall l, y_dead (a_sys (exec_from s0 l)) = false ->
+                Phi (a_sys (exec_from s0 l)) (a_trace (exec_from s0 l)).
+    Proof.
+      intros H0 Hs l. induction l as [|x l IH] using rev_ind; intro Hd; [exact H0|].
+      pose proof (alive_prefix s0 l [x] Hd) as Hd1. specialize (IH Hd1).
+      rewrite exec_snoc in *. destruct (exec_from s0 l) as [[s t] o]. unfold sys_step_acc in *.
+      destruct (step s x) as [[s' t1] o1] eqn:E. unfold a_sys, a_trace in *. cbn [fst snd] in *.
+      eapply Hs; eauto.
+    Qed.
+
+    (** the input queue only shrinks, from the front; what was read only grows *)
+    Lemma step_in s x s' t1 o1 : step s x = (s', t1, o1) -> forall m, In m (y_in s') -> In m (y_in s).
+    Proof.
+      intro E. destruct (step_cases _ _ _ _ _ E) as [_ _ _ _ _ _ _ _ Hin _ _ _
+                                                   |ord m0 rest c' ch0 sq' ch2 _ _ Hin _ _ _ _ _ _ _ _ _ _ _ Hin' _ _
+                                                   |src m0 r _ _ _ _ _ _ _ _ _ _ Hin _ _
+                                                   |ord m0 rest _ _ Hin _ Hin' _ _]; intros m Hm.
+      - now rewrite <- Hin.
+      - rewrite Hin. right. now rewrite <- Hin'.
+      - now rewrite <- Hin.
+      - rewrite Hin. right. now rewrite <- Hin'.
+    Qed.
+
+    Lemma step_done s x s' t1 o1 : step s x = (s', t1, o1) -> forall m, In m (y_done s) -> In m (y_done s').
+    Proof.
+      intro E. destruct (step_cases _ _ _ _ _ E) as [_ _ _ _ _ _ _ _ _ Hd _ _
+                                                   |ord m0 rest c' ch0 sq' ch2 _ _ _ _ _ _ _ _ _ _ _ _ _ _ _ Hd _
+                                                   |src m0 r _ _ _ _ _ _ _ _ _ _ _ Hd _
+                                                   |ord m0 rest _ _ _ _ _ Hd _]; intros m Hm; rewrite Hd; auto;
+        apply in_or_app; now left.
+    Qed.
+
+    Definition labelled (sub : str) (z : smsg) : bool :=
+      match z with SEvent s _ | SEose s => str_eqb s sub | _ => false end.
+    Definition m_labelled (sub : str) (z : Merge.smsg) : bool :=
+      match z with Merge.SEvent s _ | Merge.SEose s => str_eqb s sub | _ => false end.
+
+    Lemma m_labelled_to_m sub z : m_labelled sub (to_m z) = labelled sub z.
+    Proof. destruct z; reflexivity. Qed.
+
+    (** nothing labelled [sub] is pending or was delivered in [w], and the
+        router child has no subscription [sub] *)
+    Definition clean (sub : str) (s : sysT) (w : list Merge.input) : Prop :=
+      (forall i z, In z (pend s i) -> labelled sub z = false) /\
+      (forall i z, In z (del i w) -> m_labelled sub z = false) /\
+      ~ In sub (List.map fst (y_subs s)).
+
+    (** if this step reads a message, it is not a REQ for [sub] *)
+    Definition reads_no_req (sub : str) (s : sysT) (x : label) : Prop :=
+      forall ord m rest, x = LNext ord -> y_dead s = false -> y_in s = m :: rest -> is_req_sub sub m = false.
+
+    Lemma not_req_label sub sub' m : is_req_sub sub m = false -> is_req_sub sub' m = true -> str_eqb sub' sub = false.
+    Proof.
+      destruct m; cbn; try discriminate. intros H1 H2. apply str_eqb_eq in H2. subst sub'. exact H1.
+    Qed.
+
+    Lemma clean_step sub s w x s' t1 o1 :
+      clean sub s w -> reads_no_req sub s x -> step s x = (s', t1, o1) -> y_dead s' = false -> clean sub s' (w ++ t1).
+    Proof.
+      intros [C1 [C2 C3]] Hn E Hd. pose proof (step_cases _ _ _ _ _ E) as K.
+      destruct K as [Et Eo Hm Hc Hs H0 H1 H2 Hin Hdone Hdd Hsq
+                    |ord m rest c' ch0 sq' ch2 Ex Hal Hin Hcb Hsr Et Eo Hm Hc Hs Hsq H0 H1 H2 Hin' Hdone Hdd
+                    |src m r Ex Hal Hpop Et Eo Hm Hc Hs Hsq Hpe Hin Hdone Hdd
+                    |ord m rest Ex Hal Hin Hcb Hin' Hdone Hdd]; [| | |congruence].
+      - subst t1. rewrite app_nil_r. split; [|split]; [|exact C2|now rewrite Hs].
+        intros [|[|[|i]]] z; cbn [pend]; rewrite ?H0, ?H1, ?H2; [apply (C1 0%nat)|apply (C1 1%nat)|apply (C1 2%nat)|intros []].
+      - subst t1. specialize (Hn ord m rest Ex Hal Hin).
+        destruct (cache_reply_shape _ _ _ _ Hcb) as [_ [_ Sc3]].
+        destruct (sqlite_reply_shape _ _ _ _ Hsr) as [_ [_ Ss3]].
+        destruct (router_reply_shape ord (y_subs s) (queued s) m) as [_ [_ Sr3]].
+        split; [|split].
+        + intros [|[|[|i]]] z; cbn [pend]; rewrite ?H0, ?H1, ?H2; try (intros []); intro Hz; apply in_app_or in Hz as [Hz|Hz].
+          * now apply (C1 0%nat).
+          * specialize (Sc3 z Hz). destruct z; try reflexivity; cbn; now apply (not_req_label sub _ m).
+          * now apply (C1 1%nat).
+          * specialize (Sr3 z Hz). destruct z; try reflexivity; cbn.
+            -- now apply (not_req_label sub _ m).
+            -- destruct Sr3 as [_ Hk]. apply str_eqb_neq. intro; subst. contradiction.
+          * now apply (C1 2%nat).
+          * specialize (Ss3 z Hz). destruct z; try reflexivity; cbn; now apply (not_req_label sub _ m).
+        + intros i z. rewrite del_app, del_client, app_nil_r. apply C2.
+        + rewrite Hs. destruct m as [e|s0 fs|s0|e|s0 fs]; cbn [router_subs_step]; auto.
+          * cbn in Hn. rewrite RouterLemmas.sm_set_keys. destruct (assoc s0 (y_subs s)); [exact C3|].
+            intro Hk. apply in_app_or in Hk as [Hk|[Hk|[]]]; [contradiction|]. subst s0. now rewrite str_eqb_refl in Hn.
+          * intro Hk. apply RouterLemmas.sm_del_keys_In in Hk. tauto.
+      - subst t1. split; [|split]; [| |now rewrite Hs].
+        + intros i z Hz. rewrite Hpe in Hz. destruct (Nat.eqb i (child_of src)) eqn:Ei; [|now apply (C1 i)].
+          apply Nat.eqb_eq in Ei. subst i. apply (C1 (child_of src)). now apply (pop_sub s src m r).
+        + intros i z. rewrite del_app. intro Hz. apply in_app_or in Hz as [Hz|Hz]; [now apply (C2 i)|].
+          cbn [del] in Hz. destruct (Nat.eqb (child_of src) i); [|contradiction]. destruct Hz as [<-|[]].
+          rewrite m_labelled_to_m. apply (C1 (child_of src)). now apply (pop_In s src m r).
+    Qed.
+
+    (** reading a message records it *)
+    Lemma read_recorded s ord s' t1 o1 m rest :
+      step s (LNext ord) = (s', t1, o1) -> y_dead s = false -> y_in s = m :: rest -> In m (y_done s').
+    Proof.
+      intros E Hal Hin. unfold sys_step in E. rewrite Hal, Hin in E.
+      destruct (cache_base (y_cache s) m) as [[? ?]|].
+      - destruct (sqlite_reply db query (y_sq s) m). destruct (client_input m); inversion E; subst; cbn;
+          apply in_or_app; right; now left.
+      - destruct (client_input m); inversion E; subst; cbn; apply in_or_app; right; now left.
+    Qed.
+
+    (** a subscription id that no REQ has used yet is nowhere in the system *)
+    Lemma fresh_run l sub :
+      y_dead (a_sys (run l)) = false ->
+      (forall m, In m (y_done (a_sys (run l))) -> is_req_sub sub m = false) ->
+      clean sub (a_sys (run l)) (a_trace (run l)).
+    Proof.
+      intro Hd.
+      apply (seg_ind (fun s w => (forall m, In m (y_done s) -> is_req_sub sub m = false) -> clean sub s w)
+                     (sys_init db cap d0 msgs)); [| |exact Hd].
+      - intros _. split; [|split].
+        + intros [|[|[|i]]] z H; cbn in H; contradiction.
+        + intros i z H. cbn in H. contradiction.
+        + cbn. auto.
+      - intros s w x s' t1 o1 IH E Hd' Hdone.
+        apply (clean_step sub s w x s' t1 o1); auto.
+        + apply IH. intros m Hm. apply Hdone. now apply (step_done _ _ _ _ _ E).
+        + intros ord m rest Ex Hal Hin. subst x. apply Hdone. now apply (read_recorded s ord s' t1 o1 m rest).
+    Qed.
+
+    (** where the events labelled [sub] come from, once its only REQ has been
+        read: the cache's answer [A0], the store's answer [A2]; and the router
+        child's EOSE for [sub] is delivered before any of its live events *)
+    Definition prov (sub : str) (A0 A2 : list event) (s : sysT) (w : list Merge.input) : Prop :=
+      (forall e, In (SEvent sub e) (pend s 0) \/ In (Merge.SEvent sub e) (del 0 w) -> In e A0) /\
+      (forall e, In (SEvent sub e) (pend s 2) \/ In (Merge.SEvent sub e) (del 2 w) -> In e A2) /\
+      (forall wa e wb, w = wa ++ Merge.Child 1 (Merge.SEvent sub e) :: wb -> In (Merge.Child 1 (Merge.SEose sub)) wa) /\
+      (In (Merge.SEose sub) (del 1 w) \/
+       exists p q, y_p1 s = p ++ SEose sub :: q /\ forall e, ~ In (SEvent sub e) p).
+
+    Lemma two_splits {A} (x m : A) : forall p q a b,
+      p ++ x :: q = a ++ m :: b ->
+      (p = a /\ x = m /\ q = b) \/ (exists c, p = a ++ m :: c /\ b = c ++ x :: q) \/
+      (exists c, a = p ++ x :: c /\ q = c ++ m :: b).
+    Proof.
+      induction p as [|z p IH]; intros q a b H.
+      - destruct a as [|a0 a]; cbn in H; inversion H; subst.
+        + left. auto.
+        + right. right. exists a. auto.
+      - destruct a as [|a0 a]; cbn in H; inversion H; subst.
+        + right. left. exists p. auto.
+        + destruct (IH q a b H2) as [[-> [-> ->]]|[[c [-> ->]]|[c [-> ->]]]].
+          * left. auto.
+          * right. left. exists c. auto.
+          * right. right. exists c. auto.
+    Qed.
+
+    Lemma to_m_event z sub e : to_m z = Merge.SEvent sub e -> z = SEvent sub e.
+    Proof. destruct z; cbn; intro H; inversion H; reflexivity. Qed.
+    Lemma to_m_eose z sub : to_m z = Merge.SEose sub -> z = SEose sub.
+    Proof. destruct z; cbn; intro H; inversion H; reflexivity. Qed.
+
+    Lemma prov_step sub A0 A2 s w x s' t1 o1 :
+      prov sub A0 A2 s w -> reads_no_req sub s x -> step s x = (s', t1, o1) -> y_dead s' = false ->
+      prov sub A0 A2 s' (w ++ t1).
+    Proof.
+      intros [P0 [P2 [P3 P4]]] Hn E Hd. pose proof (step_cases _ _ _ _ _ E) as K.
+      destruct K as [Et Eo Hm Hc Hs H0 H1 H2 Hin Hdone Hdd Hsq
+                    |ord m rest c' ch0 sq' ch2 Ex Hal Hin Hcb Hsr Et Eo Hm Hc Hs Hsq H0 H1 H2 Hin' Hdone Hdd
+                    |src m r Ex Hal Hpop Et Eo Hm Hc Hs Hsq Hpe Hin Hdone Hdd
+                    |ord m rest Ex Hal Hin Hcb Hin' Hdone Hdd]; [| | |congruence].
+      - subst t1. rewrite app_nil_r. unfold prov. cbn [pend]. rewrite H0, H1, H2. auto.
+      - subst t1. specialize (Hn ord m rest Ex Hal Hin).
+        destruct (cache_reply_shape _ _ _ _ Hcb) as [_ [_ Sc3]].
+        destruct (sqlite_reply_shape _ _ _ _ Hsr) as [_ [_ Ss3]].
+        assert (Hnl : forall z sub', In z (opt_list (client_input m)) -> z <> Merge.Child 1 (Merge.SEvent sub' (mkEvent [] [] 0 0 [] [] [])) -> True) by auto.
+        split; [|split; [|split]].
+        + intros e [He|He].
+          * cbn [pend] in He. rewrite H0 in He. apply in_app_or in He as [He|He]; [apply P0; now left|].
+            specialize (Sc3 _ He). cbn in Sc3. rewrite Sc3 in Hn. discriminate.
+          * rewrite del_app, del_client, app_nil_r in He. apply P0. now right.
+        + intros e [He|He].
+          * cbn [pend] in He. rewrite H2 in He. apply in_app_or in He as [He|He]; [apply P2; now left|].
+            specialize (Ss3 _ He). cbn in Ss3. rewrite Ss3 in Hn. discriminate.
+          * rewrite del_app, del_client, app_nil_r in He. apply P2. now right.
+        + intros wa e wb Ew. destruct (client_input m) as [inp|] eqn:Ei; cbn [opt_list] in Ew.
+          * destruct (snoc_split _ _ _ _ _ Ew) as [[_ [_ Ex1]]|[wb' [-> Ew']]].
+            -- subst inp. destruct m; discriminate.
+            -- now apply (P3 wa e wb').
+          * rewrite app_nil_r in Ew. now apply (P3 wa e wb).
+        + rewrite del_app, del_client, app_nil_r. destruct P4 as [P4|[p [q [Ep Hp]]]]; [now left|].
+          right. exists p, (q ++ router_live buflen ord (y_subs s) (queued s) m ++ router_main m).
+          split; [|exact Hp]. rewrite H1, Ep, <- app_assoc. reflexivity.
+      - subst t1.
+        assert (Hsub : forall i z, In z (pend s' i) -> In z (pend s i)).
+        { intros i z. rewrite Hpe. destruct (Nat.eqb i (child_of src)) eqn:Ei; [|auto].
+          apply Nat.eqb_eq in Ei. subst i. now apply (pop_sub s src m r). }
+        assert (Hmem : In m (pend s (child_of src))) by (now apply (pop_In s src m r)).
+        split; [|split; [|split]].
+        + intros e [He|He]; [apply P0; left; now apply Hsub|].
+          rewrite del_app in He. apply in_app_or in He as [He|He]; [apply P0; now right|].
+          cbn [del] in He. destruct (Nat.eqb (child_of src) 0) eqn:Ei; [|contradiction]. destruct He as [He|[]].
+          apply Nat.eqb_eq in Ei. rewrite Ei in Hmem. apply to_m_event in He. subst m. apply P0. now left.
+        + intros e [He|He]; [apply P2; left; now apply Hsub|].
+          rewrite del_app in He. apply in_app_or in He as [He|He]; [apply P2; now right|].
+          cbn [del] in He. destruct (Nat.eqb (child_of src) 2) eqn:Ei; [|contradiction]. destruct He as [He|[]].
+          apply Nat.eqb_eq in Ei. rewrite Ei in Hmem. apply to_m_event in He. subst m. apply P2. now left.
+        + intros wa e wb Ew. destruct (snoc_split _ _ _ _ _ Ew) as [[_ [<- Ex1]]|[wb' [-> Ew']]]; [|now apply (P3 wa e wb')].
+          injection Ex1 as Ec Em. apply to_m_event in Em. subst m.
+          destruct P4 as [P4|[p [q [Ep Hp]]]]; [now apply In_del in P4|]. exfalso.
+          destruct src; cbn [child_of] in Ec; try discriminate; cbn [pop] in Hpop.
+          * rewrite Ep in Hpop. destruct p as [|z p]; cbn in Hpop; inversion Hpop; subst.
+            apply (Hp e). now left.
+          * destruct (pop_main_spec _ _ _ Hpop) as [_ [_ [_ [_ [_ N]]]]]. discriminate.
+        + destruct (Nat.eqb (child_of src) 1) eqn:Ei.
+          * destruct P4 as [P4|[p [q [Ep Hp]]]]; [left; rewrite del_app; apply in_or_app; now left|].
+            destruct src; cbn [child_of] in Ei; try discriminate; cbn [pop] in Hpop.
+            -- rewrite Ep in Hpop. destruct p as [|z p]; cbn in Hpop; inversion Hpop; subst.
+               ++ left. rewrite del_app. apply in_or_app. right. cbn. now left.
+               ++ right. exists p, q. split; [exact (Hpe 1%nat)|]. intros e He. apply (Hp e). now right.
+            -- destruct (pop_main_spec _ _ _ Hpop) as [a [b [E1 [E2 [F N]]]]]. rewrite Ep in E1.
+               destruct (two_splits _ _ _ _ _ _ E1) as [[-> [<- ->]]|[[c [-> ->]]|[c [-> ->]]]].
+               ++ left. rewrite del_app. apply in_or_app. right. cbn. now left.
+               ++ right. exists (a ++ c), q. split.
+                  ** specialize (Hpe 1%nat). cbn in Hpe. rewrite Hpe, E2, <- app_assoc. reflexivity.
+                  ** intros e He. apply (Hp e). apply in_app_or in He. apply in_or_app. destruct He; [now left | right; now right].
+               ++ exfalso. rewrite Forall_forall in F. specialize (F (SEose sub)). cbn in F.
+                  assert (false = true) by (apply F; apply in_or_app; right; now left). discriminate.
+          * rewrite del_app. cbn [del]. rewrite Ei, app_nil_r.
+            destruct P4 as [P4|[p [q [Ep Hp]]]]; [now left|]. right. exists p, q. split; [|exact Hp].
+            specialize (Hpe 1%nat). cbn [pend] in Hpe. rewrite Hpe. rewrite Nat.eqb_sym, Ei. exact Ep.
+    Qed.
+
+    (* -------------------------------------------------------------- *)
+    (** * 10. Facts about one REQ window of the merge session (from MergeProofs) *)
+
+    Lemma eosed_In sub w i : Merge.eosed sub w i = true <-> In (Merge.Child i (Merge.SEose sub)) w.
+    Proof.
+      unfold Merge.eosed. rewrite existsb_exists. split.
+      - intros [x [Hx Hp]]. destruct x as [| | | |j [s0| | | | |]]; try discriminate. cbn in Hp.
+        apply andb_true_iff in Hp as [H1 H2]. apply Nat.eqb_eq in H1. apply str_eqb_eq in H2. now subst.
+      - intro H. exists (Merge.Child i (Merge.SEose sub)). split; [exact H|]. cbn.
+        now rewrite Nat.eqb_refl, str_eqb_refl.
+    Qed.
+
+    Lemma all_eosed_app_mono n sub w1 w2 :
+      Merge.all_eosed n sub w1 = true -> Merge.all_eosed n sub (w1 ++ w2) = true.
+    Proof.
+      intro H. induction w2 as [|x w2 IH] using rev_ind; [now rewrite app_nil_r|].
+      rewrite app_assoc. now apply MergeProofs.all_eosed_mono.
+    Qed.
+
+    Lemma all_eosed_In n sub w :
+      Merge.all_eosed n sub w = true <-> forall i, (i < n)%nat -> In (Merge.Child i (Merge.SEose sub)) w.
+    Proof.
+      unfold Merge.all_eosed. rewrite forallb_forall. split.
+      - intros H i Hi. apply eosed_In. apply H. apply in_seq. lia.
+      - intros H i Hi. apply in_seq in Hi. apply eosed_In. apply H. lia.
+    Qed.
+
+    Lemma fwd_pos sub s0 e : forall w,
+      In e (Merge.forwarded sub (Merge.outs s0 w)) ->
+      exists wa x wb, w = wa ++ x :: wb /\ snd (Merge.merge_step (Merge.final s0 wa) x) = Some (Merge.SEvent sub e).
+    Proof.
+      induction w as [|x w IH] using rev_ind; intro H; [contradiction|].
+      rewrite MergeProofs.outs_snoc, MergeProofs.forwarded_app in H. apply in_app_or in H as [H|H].
+      - destruct (IH H) as [wa [y [wb [-> Hy]]]]. exists wa, y, (wb ++ [x]). split; [|exact Hy].
+        now rewrite <- app_assoc.
+      - exists w, x, []. split; [reflexivity|]. cbn [Merge.forwarded] in H.
+        destruct (snd (Merge.merge_step (Merge.final s0 w) x)) as [[s1|s1 e1|m|c|t0|s1 p0 t0]|]; try contradiction.
+        destruct (str_eqb s1 sub) eqn:Es; [|contradiction]. destruct H as [<-|[]]. apply str_eqb_eq in Es. now subst.
+    Qed.
+
+    (** before the merged EOSE, an event of child [i] is forwarded only if child
+        [i] has not sent its own EOSE yet *)
+    Lemma fwd_needs_open ms sub fs wa i e :
+      MergeProofs.state_ok 3 ms -> Forall filter_wf fs ->
+      Merge.trace_ok 3 (wa ++ [Merge.Child i (Merge.SEvent sub e)]) ->
+      Merge.no_reset sub wa ->
+      Merge.all_eosed 3 sub wa = false ->
+      snd (Merge.merge_step (Merge.final (fst (Merge.merge_step ms (Merge.CReq sub fs))) wa)
+                            (Merge.Child i (Merge.SEvent sub e))) = Some (Merge.SEvent sub e) ->
+      Merge.eosed sub wa i = false.
+    Proof.
+      intros Hs Hfs Ht Hnr Ha Hout.
+      set (s0 := fst (Merge.merge_step ms (Merge.CReq sub fs))) in *.
+      assert (Hs0 : MergeProofs.state_ok 3 s0) by (apply MergeProofs.step_ok; assumption).
+      destruct (MergeProofs.trace_ok_snoc _ _ _ Ht) as [Ht1 Hx].
+      destruct (MergeProofs.run_sim 3 sub wa s0 Hs0 Ht1 Hnr) as [Hph _].
+      unfold s0 in Hph at 2. rewrite (MergeProofs.phase_after_req 3 ms sub fs Hs) in Hph.
+      pose proof (MergeProofs.window_inv 3 sub fs wa ltac:(lia) Ht1) as W. unfold MergeProofs.window_state in W.
+      rewrite Ha in W. destruct W as [la [se [ms' [Ew _]]]]. rewrite Ew in Hph.
+      assert (Hsf : MergeProofs.state_ok 3 (Merge.final s0 wa)) by (now apply MergeProofs.exec_ok).
+      destruct (MergeProofs.step_sim 3 sub (Merge.final s0 wa) _ Hsf Hx eq_refl eq_refl) as [_ Hproj].
+      rewrite Hout, Hph in Hproj. cbn [MergeProofs.proj_sub MergeProofs.wstep] in Hproj.
+      rewrite str_eqb_refl in Hproj. cbn [MergeProofs.w_event] in Hproj.
+      rewrite MergeProofs.all_true_eo_of, Ha in Hproj.
+      destruct Hx as [Hi _]. unfold MergeProofs.eo_of in Hproj.
+      rewrite (MergeAggProofs.nth_error_map_seq (Merge.eosed sub wa) 3 0 i Hi) in Hproj. cbn [plus] in Hproj.
+      destruct (Merge.eosed sub wa i); [cbn in Hproj; discriminate | reflexivity].
+    Qed.
+
+    (* -------------------------------------------------------------- *)
+    (** * 11. Segments: which client inputs occur, what gets delivered *)
+
+    Lemma seg_clients s0 l :
+      y_dead (a_sys (exec_from s0 l)) = false ->
+      (forall m, In m (y_in (a_sys (exec_from s0 l))) -> In m (y_in s0)) /\
+      forall x, In x (a_trace (exec_from s0 l)) ->
+        (exists i z, x = Merge.Child i z) \/ exists m, In m (y_in s0) /\ client_input m = Some x.
+    Proof.
+      apply (seg_ind (fun s w => (forall m, In m (y_in s) -> In m (y_in s0)) /\
+                                 forall x, In x w -> (exists i z, x = Merge.Child i z) \/
+                                                     exists m, In m (y_in s0) /\ client_input m = Some x) s0).
+      - split; [auto | intros x []].
+      - intros s w x s' t1 o1 [H1 H2] E Hd. split.
+        + intros m Hm. apply H1. now apply (step_in _ _ _ _ _ E).
+        + intros z Hz. apply in_app_or in Hz as [Hz|Hz]; [now apply H2|].
+          destruct (step_cases _ _ _ _ _ E) as [Et _ _ _ _ _ _ _ _ _ _ _
+                                               |ord m rest c' ch0 sq' ch2 _ _ Hin _ _ Et _ _ _ _ _ _ _ _ _ _ _
+                                               |src m r _ _ _ Et _ _ _ _ _ _ _ _ _
+                                               |ord m rest _ _ _ _ _ _ Hdd]; [| | |congruence]; subst t1.
+          * contradiction.
+          * right. exists m. split; [apply H1; rewrite Hin; now left|].
+            destruct (client_input m); cbn in Hz; [destruct Hz as [<-|[]]; reflexivity | contradiction].
+          * left. destruct Hz as [<-|[]]. eauto.
+    Qed.
+
+    Lemma seg_prov sub A0 A2 s0 l :
+      prov sub A0 A2 s0 [] -> (forall m, In m (y_in s0) -> is_req_sub sub m = false) ->
+      y_dead (a_sys (exec_from s0 l)) = false ->
+      prov sub A0 A2 (a_sys (exec_from s0 l)) (a_trace (exec_from s0 l)).
+    Proof.
+      intros Hp Hr Hd.
+      apply (seg_ind (fun s w => (forall m, In m (y_in s) -> In m (y_in s0)) /\ prov sub A0 A2 s w) s0); [| |exact Hd].
+      - split; auto.
+      - intros s w x s' t1 o1 [H1 H2] E Hd'. split.
+        + intros m Hm. apply H1. now apply (step_in _ _ _ _ _ E).
+        + apply (prov_step sub A0 A2 s w x s' t1 o1); auto.
+          intros ord m rest _ _ Hin. apply Hr, H1. rewrite Hin. now left.
+    Qed.
+
+    Lemma pop_cases (s : sysT) src m r z :
+      pop s src = Some (m, r) -> In z (pend s (child_of src)) -> z = m \/ In z r.
+    Proof.
+      destruct src; cbn [pop child_of pend]; intros H Hz.
+      - destruct (y_p0 s); [discriminate|]. inversion H; subst. destruct Hz; auto.
+      - destruct (y_p1 s); [discriminate|]. inversion H; subst. destruct Hz; auto.
+      - destruct (pop_main_spec _ _ _ H) as [a [b [E [E2 _]]]]. rewrite E in Hz. subst r.
+        apply in_app_or in Hz as [Hz|[Hz|Hz]]; auto; right; apply in_or_app; auto.
+      - destruct (y_p2 s); [discriminate|]. inversion H; subst. destruct Hz; auto.
+    Qed.
+
+    (** what is pending is delivered or stays pending *)
+    Lemma seg_delivered s0 l :
+      y_dead (a_sys (exec_from s0 l)) = false ->
+      forall i z, In z (pend s0 i) ->
+        In (to_m z) (del i (a_trace (exec_from s0 l))) \/ In z (pend (a_sys (exec_from s0 l)) i).
+    Proof.
+      apply (seg_ind (fun s w => forall i z, In z (pend s0 i) -> In (to_m z) (del i w) \/ In z (pend s i)) s0).
+      - auto.
+      - intros s w x s' t1 o1 IH E Hd i z Hz. rewrite del_app. specialize (IH i z Hz).
+        destruct IH as [IH|IH]; [left; apply in_or_app; now left|].
+        pose proof (step_cases _ _ _ _ _ E) as K.
+        destruct K as [Et Eo Hm Hc Hs H0 H1 H2 Hin Hdone Hdd Hsq
+                      |ord m rest c' ch0 sq' ch2 Ex Hal Hin Hcb Hsr Et Eo Hm Hc Hs Hsq H0 H1 H2 Hin' Hdone Hdd
+                      |src m r Ex Hal Hpop Et Eo Hm Hc Hs Hsq Hpe Hin Hdone Hdd
+                      |ord m rest Ex Hal Hin Hcb Hin' Hdone Hdd]; [| | |congruence].
+        + right. destruct i as [|[|[|i]]]; cbn [pend] in *; congruence.
+        + right. destruct i as [|[|[|i]]]; cbn [pend] in *; rewrite ?H0, ?H1, ?H2; auto; apply in_or_app; now left.
+        + subst t1. rewrite Hpe. cbn [del]. destruct (Nat.eqb i (child_of src)) eqn:Ei.
+          * apply Nat.eqb_eq in Ei. subst i. rewrite Nat.eqb_refl.
+            destruct (pop_cases s src m r z Hpop IH) as [->|Hr]; [left; apply in_or_app; right; now left | now right].
+          * now right.
+    Qed.
+
+    (* -------------------------------------------------------------- *)
+    (** * 12. SYS_req_stream *)
+
+    Lemma count_pos {A} (p : A -> bool) l x : In x l -> p x = true -> (1 <= count_occ_b p l)%nat.
+    Proof.
+      induction l as [|y l IH]; [intros []|]. intros [->|H] Hp; cbn; [rewrite Hp; lia|].
+      destruct (p y); [lia | now apply IH].
+    Qed.
+
+    (** the step that reads a REQ, spelled out *)
+    Lemma read_req s ord sub fs rest s' t1 o1 :
+      y_dead s = false -> y_in s = CReq sub fs :: rest ->
+      step s (LNext ord) = (s', t1, o1) -> y_dead s' = false ->
+      exists A0, c_find (y_cache s) fs = Ok A0 /\
+        t1 = [Merge.CReq sub fs] /\
+        y_merge s' = fst (Merge.merge_step (y_merge s) (Merge.CReq sub fs)) /\
+        y_in s' = rest /\
+        y_p0 s' = y_p0 s ++ List.map (SEvent sub) A0 ++ [SEose sub] /\
+        y_p1 s' = y_p1 s ++ [SEose sub] /\
+        y_p2 s' = y_p2 s ++ List.map (SEvent sub) (match query (sq_db (y_sq s)) fs with Some evs => evs | None => [] end)
+                        ++ [SEose sub].
+    Proof.
+      intros Hal Hin E Hd. unfold sys_step in E. rewrite Hal, Hin in E. cbn [cache_base client_input] in E.
+      destruct (c_find (y_cache s) fs) as [A0|] eqn:Ef.
+      - cbn [sqlite_reply] in E. inversion E; subst. clear E. exists A0. cbn.
+        repeat split; try reflexivity.
+        destruct (query (sq_db (y_sq s)) fs); reflexivity.
+      - inversion E; subst. cbn in Hd. discriminate.
+    Qed.
+
+    Theorem req_stream l1 ord l2 sub fs rest :
+      y_dead (a_sys (run (l1 ++ LNext ord :: l2))) = false ->
+      y_in (a_sys (run l1)) = CReq sub fs :: rest ->
+      (forall m, In m (y_done (a_sys (run l1))) -> is_req_sub sub m = false) ->
+      (forall m, In m rest -> is_req_sub sub m = false /\ is_close_sub sub m = false) ->
+      exists A0, c_find (y_cache (a_sys (run l1))) fs = Ok A0 /\
+        let A2 := match query (sq_db (y_sq (a_sys (run l1)))) fs with Some evs => evs | None => [] end in
+        let a2 := exec_from (a_sys (run l1)) (LNext ord :: l2) in
+        (count_occ_b (is_eose_sub sub) (a_outs a2) <= 1)%nat /\
+        (In (SEose sub) (a_outs a2) ->
+           forall i, (i < 3)%nat -> In (Merge.Child i (Merge.SEose sub)) (a_trace a2)) /\
+        (quiet (a_sys a2) -> count_occ_b (is_eose_sub sub) (a_outs a2) = 1%nat) /\
+        (count_occ_b (is_eose_sub sub) (a_outs a2) = 0%nat ->
+           (forall e, In e (events_for sub (a_outs a2)) -> matches_spec e fs) /\
+           NoDup (List.map MergeProofs.ev_key (events_for sub (a_outs a2))) /\
+           Merge.ts_noninc (events_for sub (a_outs a2)) /\
+           (forall e, In e (events_for sub (a_outs a2)) -> In e A0 \/ In e A2)).
+    Proof.
+      intros Hd Hin Hfresh Hrest.
+      pose proof (alive_prefix _ l1 (LNext ord :: l2) Hd) as Hd1.
+      pose proof (inv_run l1 Hd1) as I1. pose proof (inv_run _ Hd) as Iall.
+      set (s1 := a_sys (run l1)) in *.
+      assert (Hd2 : y_dead (a_sys (exec_from s1 (LNext ord :: l2))) = false).
+      { rewrite exec_app in Hd. exact Hd. }
+      assert (Etr : a_trace (run (l1 ++ LNext ord :: l2)) = a_trace (run l1) ++ a_trace (exec_from s1 (LNext ord :: l2))).
+      { rewrite exec_app. reflexivity. }
+      destruct (step s1 (LNext ord)) as [[s1' t1r] o1r] eqn:Es.
+      assert (Hd1' : y_dead s1' = false).
+      { pose proof (alive_prefix s1 [LNext ord] l2 Hd2) as H. rewrite exec_cons, Es in H. exact H. }
+      destruct (read_req s1 ord sub fs rest s1' t1r o1r Hd1 Hin Es Hd1') as [A0 [Ef [Et1 [Hm' [Hin' [Hp0 [Hp1 Hp2]]]]]]].
+      exists A0. split; [exact Ef|]. intros A2 a2.
+      assert (Ea2 : a2 = (a_sys (exec_from s1' l2), Merge.CReq sub fs :: a_trace (exec_from s1' l2),
+                          o1r ++ a_outs (exec_from s1' l2))).
+      { unfold a2. rewrite exec_cons, Es. cbn [fst snd]. now rewrite Et1. }
+      assert (Hd3 : y_dead (a_sys (exec_from s1' l2)) = false).
+      { unfold a2 in Ea2. rewrite Ea2 in Hd2. exact Hd2. }
+      set (w := a_trace (exec_from s1' l2)) in *.
+      set (ms1 := y_merge s1) in *.
+      (* the client-side sequence of the window *)
+      assert (Eo : a_outs a2 = vis (Merge.win_outs ms1 sub fs w)).
+      { destruct (exec_merge (LNext ord :: l2) s1 Hd2) as [_ H]. fold a2 in H. rewrite H.
+        rewrite Ea2. unfold a_trace. cbn [fst snd]. rewrite MergeProofs.outs_cons.
+        rewrite (client_step_silent (y_merge s1) (CReq sub fs) _ eq_refl). reflexivity. }
+      (* what MergeProofs needs *)
+      assert (Ems1 : ms1 = Merge.final (Merge.init 3) (a_trace (run l1))) by (apply run_merge; exact Hd1).
+      assert (Hs1 : MergeProofs.state_ok 3 ms1).
+      { rewrite Ems1. apply MergeProofs.reach_ok. exact (i_tok _ I1). }
+      assert (HT : Merge.trace_ok 3 (a_trace (run l1) ++ Merge.CReq sub fs :: w)).
+      { pose proof (i_tok _ Iall) as H. rewrite Etr in H. fold a2 in H. rewrite Ea2 in H. exact H. }
+      destruct (MergeProofs.trace_ok_window _ _ _ _ HT) as [_ [Hfs Hw]]. cbn in Hfs.
+      assert (Hnr : Merge.no_reset sub w).
+      { destruct (seg_clients s1' l2 Hd3) as [_ Hc]. intros x Hx. fold w in Hc.
+        destruct (Hc x Hx) as [[i [z ->]]|[m [Hm Ex]]]; [split; reflexivity|].
+        rewrite Hin' in Hm. destruct (Hrest m Hm) as [R1 R2].
+        destruct m; cbn in Ex; inversion Ex; subst; cbn in *; auto. }
+      pose proof (MergeProofs.eose_exactly_once 3 ms1 sub fs w ltac:(lia) Hs1 Hfs Hw Hnr) as Once.
+      assert (Ec : count_occ_b (is_eose_sub sub) (a_outs a2) =
+                   count_occ_b (Merge.is_eose_out sub) (Merge.win_outs ms1 sub fs w)).
+      { rewrite Eo. apply count_occ_b_vis; [apply is_eose_sub_from | reflexivity]. }
+      (* freshness: nothing labelled [sub] before the REQ *)
+      pose proof (fresh_run l1 sub Hd1 Hfresh) as [C1 [_ _]]. fold s1 in C1.
+      (* provenance *)
+      assert (Hprov0 : prov sub A0 A2 s1' []).
+      { split; [|split; [|split]].
+        - intros e [He|[]]. cbn [pend] in He. rewrite Hp0 in He.
+          apply in_app_or in He as [He|He]; [specialize (C1 0%nat _ He); cbn in C1; now rewrite str_eqb_refl in C1|].
+          apply in_app_or in He as [He|[He|[]]]; [|discriminate].
+          apply in_map_iff in He as [x [Ex Hx]]. now inversion Ex; subst.
+        - intros e [He|[]]. cbn [pend] in He. rewrite Hp2 in He.
+          apply in_app_or in He as [He|He]; [specialize (C1 2%nat _ He); cbn in C1; now rewrite str_eqb_refl in C1|].
+          apply in_app_or in He as [He|[He|[]]]; [|discriminate].
+          apply in_map_iff in He as [x [Ex Hx]]. now inversion Ex; subst.
+        - intros wa e wb Ew. destruct wa; discriminate.
+        - right. exists (y_p1 s1), []. split; [exact Hp1|]. intros e He.
+          specialize (C1 1%nat _ He). cbn in C1. now rewrite str_eqb_refl in C1. }
+      assert (Hprov : prov sub A0 A2 (a_sys (exec_from s1' l2)) w).
+      { apply seg_prov; auto. intros m Hm. rewrite Hin' in Hm. now destruct (Hrest m Hm). }
+      split; [|split; [|split]].
+      - rewrite Ec, Once. destruct (Merge.all_eosed 3 sub w); lia.
+      - intros HIn i Hi.
+        assert (H1 : (1 <= count_occ_b (is_eose_sub sub) (a_outs a2))%nat).
+        { apply (count_pos _ _ (SEose sub) HIn). cbn. apply str_eqb_refl. }
+        rewrite Ec, Once in H1. destruct (Merge.all_eosed 3 sub w) eqn:Ea; [|lia].
+        rewrite Ea2. unfold a_trace. cbn [fst snd]. right. now apply (all_eosed_In 3 sub w).
+      - intro Q. rewrite Ec, Once.
+        assert (Ea : Merge.all_eosed 3 sub w = true).
+        { apply all_eosed_In. intros i Hi. apply In_del.
+          assert (Hpi : In (SEose sub) (pend s1' i)).
+          { destruct i as [|[|[|i]]]; cbn [pend]; [rewrite Hp0|rewrite Hp1|rewrite Hp2|lia];
+              repeat (apply in_or_app; right); now left. }
+          destruct (seg_delivered s1' l2 Hd3 i _ Hpi) as [H|H]; [exact H|].
+          exfalso. rewrite Ea2 in Q. unfold a_sys in Q. cbn [fst] in Q.
+          assert (Hqp := quiet_pend (exec_from s1' l2) i Q). rewrite Hqp in H. contradiction. }
+        now rewrite Ea.
+      - intro Hz. rewrite Ec, Once in Hz. destruct (Merge.all_eosed 3 sub w) eqn:Ea; [discriminate|].
+        rewrite Eo, events_for_vis.
+        split; [|split; [|split]].
+        + apply (MergeProofs.pre_eose_match 3 ms1 sub fs w); auto; lia.
+        + apply (MergeProofs.pre_eose_distinct 3 ms1 sub fs w); auto; lia.
+        + apply (MergeProofs.pre_eose_sorted 3 ms1 sub fs w); auto; lia.
+        + intros e He. unfold Merge.win_outs in He.
+          destruct (fwd_pos sub _ e w He) as [wa [x [wb [Ew Hx]]]].
+          destruct (MergeProofs.subid_preserved _ _ _ Hx) as [i [m0 [Ex Hm0]]]. subst x.
+          assert (Em0 : m0 = Merge.SEvent sub e).
+          { destruct m0; try (symmetry; exact Hm0); destruct Hm0 as [r Hr]; discriminate. }
+          subst m0.
+          assert (Hw' : Merge.trace_ok 3 (wa ++ [Merge.Child i (Merge.SEvent sub e)])).
+          { rewrite Ew in Hw. now apply (MergeProofs.trace_ok_mid 3 wa _ wb). }
+          assert (Hnr' : Merge.no_reset sub wa).
+          { rewrite Ew in Hnr. now destruct (MergeProofs.no_reset_app sub wa _ Hnr). }
+          assert (Ea' : Merge.all_eosed 3 sub wa = false).
+          { destruct (Merge.all_eosed 3 sub wa) eqn:E1; [|reflexivity].
+            rewrite Ew, (all_eosed_app_mono 3 sub wa _ E1) in Ea. discriminate. }
+          pose proof (fwd_needs_open ms1 sub fs wa i e Hs1 Hfs Hw' Hnr' Ea' Hx) as Hopen.
+          destruct (MergeProofs.trace_ok_snoc _ _ _ Hw') as [_ [Hi _]].
+          destruct Hprov as [P0 [P2 [P3 _]]].
+          assert (Hin_w : In (Merge.Child i (Merge.SEvent sub e)) w) by (rewrite Ew; apply in_or_app; right; now left).
+          destruct i as [|[|[|i]]]; [| | |lia].
+          * left. apply P0. right. now apply In_del.
+          * exfalso. specialize (P3 wa e wb Ew). apply eosed_In in P3. congruence.
+          * right. apply P2. right. now apply In_del.
+    Qed.
+
+    (* -------------------------------------------------------------- *)
+    (** * 13. SYS_live_after_eose *)
+
+    Lemma router_subs_NoDup done : NoDup (List.map fst (router_subs done)).
+    Proof.
+      induction done as [|m done IH] using rev_ind; [constructor|].
+      rewrite router_subs_snoc. destruct m; cbn [router_subs_step]; auto.
+      - now apply RouterLemmas.sm_set_NoDup.
+      - now apply RouterLemmas.sm_del_NoDup.
+    Qed.
+
+    (** the step that reads an EVENT, spelled out *)
+    Lemma read_event s ord e rest s' t1 o1 :
+      y_dead s = false -> y_in s = CEvent e :: rest ->
+      step s (LNext ord) = (s', t1, o1) -> y_dead s' = false ->
+      t1 = [Merge.CEvent (ev_id e)] /\ y_in s' = rest /\
+      y_p1 s' = y_p1 s ++ live_copies buflen e (Router.reorder ord (y_subs s)) (queued s) ++ [SOk (ev_id e) true [] []].
+    Proof.
+      intros Hal Hin E Hd. unfold sys_step in E. rewrite Hal, Hin in E. cbn [cache_base client_input] in E.
+      destruct (c_add (y_cache s) e) as [c' added]. cbn [sqlite_reply] in E. inversion E; subst. cbn. auto.
+    Qed.
+
+    Lemma live_has e subs ord q sub fs :
+      assoc sub subs = Some fs -> Router.sub_matches e fs = true ->
+      (q + length subs <= buflen)%nat ->
+      In (SEvent sub e) (live_copies buflen e (Router.reorder ord subs) q).
+    Proof.
+      intros Ha Hm Hroom. unfold live_copies. rewrite visit_loop_spec.
+      rewrite skipn_app, repeat_length, Nat.sub_diag, skipn_all2 by (rewrite repeat_length; lia).
+      cbn [app skipn]. rewrite map_map.
+      assert (Hin : In sub (matching_subs e (Router.reorder ord subs))).
+      { unfold matching_subs. apply in_map_iff. exists (sub, fs). split; [reflexivity|].
+        apply filter_In. split; [now apply RouterLemmas.reorder_In_assoc | exact Hm]. }
+      rewrite firstn_all2.
+      - apply in_map_iff. exists sub. split; [reflexivity | exact Hin].
+      - unfold matching_subs. rewrite map_length.
+        pose proof (RouterLemmas.reorder_length ord subs).
+        assert (length (filter (fun kv => Router.sub_matches e (snd kv)) (Router.reorder ord subs)) <=
+                length (Router.reorder ord subs))%nat.
+        { generalize (Router.reorder ord subs). intro l0. induction l0 as [|y l0 IH]; cbn; [lia|].
+          destruct (Router.sub_matches e (snd y)); cbn; lia. }
+        lia.
+    Qed.
+
+    (** a subscription stays as the REQ made it while no REQ / CLOSE for it is read *)
+    Lemma seg_subs sub fs s0 l :
+      assoc sub (y_subs s0) = Some fs ->
+      (forall m, In m (y_in s0) -> is_req_sub sub m = false /\ is_close_sub sub m = false) ->
+      y_dead (a_sys (exec_from s0 l)) = false ->
+      assoc sub (y_subs (a_sys (exec_from s0 l))) = Some fs.
+    Proof.
+      intros Ha Hr Hd.
+      apply (seg_ind (fun s w => (forall m, In m (y_in s) -> In m (y_in s0)) /\ assoc sub (y_subs s) = Some fs) s0);
+        [| |exact Hd]; [auto|].
+      intros s w x s' t1 o1 [H1 H2] E Hd'. split.
+      - intros m Hm. apply H1. now apply (step_in _ _ _ _ _ E).
+      - destruct (step_cases _ _ _ _ _ E) as [_ _ _ _ Hs _ _ _ _ _ _ _
+                                             |ord m rest c' ch0 sq' ch2 _ _ Hin _ _ _ _ _ _ Hs _ _ _ _ _ _ _
+                                             |src m r _ _ _ _ _ _ _ Hs _ _ _ _ _
+                                             |ord m rest _ _ _ _ _ _ Hdd]; [| | |congruence]; rewrite Hs; auto.
+        assert (Hm : In m (y_in s0)) by (apply H1; rewrite Hin; now left).
+        destruct (Hr m Hm) as [R1 R2].
+        destruct m as [e|s1 fs1|s1|e|s1 fs1]; cbn [router_subs_step]; auto; cbn in R1, R2.
+        + rewrite RouterLemmas.assoc_sm_set_other; [exact H2|]. intro; subst. now rewrite str_eqb_refl in R1.
+        + rewrite RouterLemmas.assoc_sm_del_other; [exact H2|]. intro; subst. now rewrite str_eqb_refl in R2.
+    Qed.
+
+    Lemma read_req_subs s ord sub fs rest s' t1 o1 :
+      y_dead s = false -> y_in s = CReq sub fs :: rest ->
+      step s (LNext ord) = (s', t1, o1) -> y_dead s' = false ->
+      assoc sub (y_subs s') = Some fs.
+    Proof.
+      intros Hal Hin E Hd. unfold sys_step in E. rewrite Hal, Hin in E. cbn [cache_base client_input] in E.
+      destruct (c_find (y_cache s) fs) as [A0|]; [|inversion E; subst; cbn in Hd; discriminate].
+      cbn [sqlite_reply] in E. inversion E; subst. cbn. apply RouterLemmas.assoc_sm_set_same.
+    Qed.
+
+    Theorem live_after_eose l0 ord0 l1 ord l2 sub fs e rest0 rest1 :
+      let s0 := a_sys (run l0) in
+      let a1 := exec_from s0 (LNext ord0 :: l1) in
+      let a2 := exec_from (a_sys a1) (LNext ord :: l2) in
+      y_dead (a_sys (run (l0 ++ (LNext ord0 :: l1) ++ LNext ord :: l2))) = false ->
+      y_in s0 = CReq sub fs :: rest0 ->
+      (forall m, In m rest0 -> is_req_sub sub m = false /\ is_close_sub sub m = false) ->
+      In (SEose sub) (a_outs a1) ->
+      y_in (a_sys a1) = CEvent e :: rest1 ->
+      Router.sub_matches e fs = true ->
+      (queued (a_sys a1) + length (y_subs (a_sys a1)) <= buflen)%nat ->
+      filter smsg_is_event (y_p1 (a_sys a2)) = [] ->
+      In (SEvent sub e) (a_outs a2).
+    Proof.
+      intros s0 a1 a2 Hd Hin0 Hrest HEose Hin1 Hmatch Hroom Hdrained.
+      (* aliveness of the pieces *)
+      pose proof (alive_prefix _ l0 _ Hd) as Hdl0.
+      assert (Hd01 : y_dead (a_sys (run (l0 ++ LNext ord0 :: l1))) = false).
+      { rewrite app_assoc in Hd. exact (alive_prefix _ _ _ Hd). }
+      pose proof (inv_run l0 Hdl0) as I0. pose proof (inv_run _ Hd) as Iall.
+      fold s0 in I0.
+      assert (Ha1 : y_dead (a_sys a1) = false) by (rewrite exec_app in Hd01; exact Hd01).
+      assert (E01 : run (l0 ++ LNext ord0 :: l1) = (a_sys a1, a_trace (run l0) ++ a_trace a1, a_outs (run l0) ++ a_outs a1)).
+      { rewrite exec_app. reflexivity. }
+      assert (Ha2 : y_dead (a_sys a2) = false).
+      { rewrite app_assoc, exec_app, E01 in Hd. exact Hd. }
+      assert (ETr : a_trace (run (l0 ++ (LNext ord0 :: l1) ++ LNext ord :: l2)) = a_trace (run l0) ++ a_trace a1 ++ a_trace a2).
+      { rewrite app_assoc, exec_app, E01. unfold a_trace, a_sys. cbn [fst snd]. now rewrite <- app_assoc. }
+      (* the REQ is read *)
+      destruct (step s0 (LNext ord0)) as [[s0' t0r] o0r] eqn:Es0.
+      assert (Hd0' : y_dead s0' = false).
+      { pose proof (alive_prefix s0 [LNext ord0] l1 Ha1) as H. rewrite exec_cons, Es0 in H. exact H. }
+      destruct (read_req s0 ord0 sub fs rest0 s0' t0r o0r Hdl0 Hin0 Es0 Hd0') as [A0 [_ [Et0 [_ [Hin0' _]]]]].
+      pose proof (read_req_subs s0 ord0 sub fs rest0 s0' t0r o0r Hdl0 Hin0 Es0 Hd0') as Hsub0.
+      assert (Ea1 : a1 = (a_sys (exec_from s0' l1), Merge.CReq sub fs :: a_trace (exec_from s0' l1),
+                          o0r ++ a_outs (exec_from s0' l1))).
+      { unfold a1. rewrite exec_cons, Es0. cbn [fst snd]. now rewrite Et0. }
+      assert (Hd1s : y_dead (a_sys (exec_from s0' l1)) = false) by (rewrite Ea1 in Ha1; exact Ha1).
+      set (w1 := a_trace (exec_from s0' l1)) in *.
+      set (ms0 := y_merge s0) in *.
+      set (s1 := a_sys a1) in *.
+      assert (Es1 : s1 = a_sys (exec_from s0' l1)) by (unfold s1; now rewrite Ea1).
+      (* the EVENT is read *)
+      destruct (step s1 (LNext ord)) as [[s1' t1r] o1r] eqn:Es1r.
+      assert (Hd1' : y_dead s1' = false).
+      { pose proof (alive_prefix s1 [LNext ord] l2 Ha2) as H. rewrite exec_cons, Es1r in H. exact H. }
+      destruct (read_event s1 ord e rest1 s1' t1r o1r Ha1 Hin1 Es1r Hd1') as [Et1 [Hin1' Hp1]].
+      assert (Ea2 : a2 = (a_sys (exec_from s1' l2), Merge.CEvent (ev_id e) :: a_trace (exec_from s1' l2),
+                          o1r ++ a_outs (exec_from s1' l2))).
+      { unfold a2. fold s1. rewrite exec_cons, Es1r. cbn [fst snd]. now rewrite Et1. }
+      assert (Hd2s : y_dead (a_sys (exec_from s1' l2)) = false) by (rewrite Ea2 in Ha2; exact Ha2).
+      set (w2 := a_trace (exec_from s1' l2)) in *.
+      (* the subscription is still what the REQ made it *)
+      assert (Hrest0' : forall m, In m (y_in s0') -> is_req_sub sub m = false /\ is_close_sub sub m = false).
+      { intros m Hm. rewrite Hin0' in Hm. now apply Hrest. }
+      assert (Hsub1 : assoc sub (y_subs s1) = Some fs).
+      { rewrite Es1. now apply seg_subs. }
+      destruct (seg_clients s0' l1 Hd1s) as [Hin_s1 Hcl1]. rewrite <- Es1 in Hin_s1.
+      assert (Hrest1 : forall m, In m rest1 -> is_req_sub sub m = false /\ is_close_sub sub m = false).
+      { intros m Hm. apply Hrest0', Hin_s1. rewrite Hin1. now right. }
+      (* the live copy is queued, and delivered during l2 *)
+      assert (Hqd : In (SEvent sub e) (pend s1' 1)).
+      { cbn [pend]. rewrite Hp1. apply in_or_app. right. apply in_or_app. left. now apply (live_has e _ ord _ sub fs). }
+      assert (Hdel : In (Merge.Child 1 (Merge.SEvent sub e)) w2).
+      { destruct (seg_delivered s1' l2 Hd2s 1%nat _ Hqd) as [H|H]; [now apply In_del in H|]. exfalso.
+        assert (Hf : In (SEvent sub e) (filter smsg_is_event (y_p1 (a_sys a2)))).
+        { apply filter_In. split; [|reflexivity]. rewrite Ea2. exact H. }
+        rewrite Hdrained in Hf. contradiction. }
+      apply in_split in Hdel as [wa [wb Ew2]].
+      (* the merge session: the window of the REQ *)
+      assert (Ems0 : ms0 = Merge.final (Merge.init 3) (a_trace (run l0))) by (apply run_merge; exact Hdl0).
+      assert (Hs0 : MergeProofs.state_ok 3 ms0).
+      { rewrite Ems0. apply MergeProofs.reach_ok. exact (i_tok _ I0). }
+      assert (HT : Merge.trace_ok 3 (a_trace (run l0) ++ Merge.CReq sub fs :: w1 ++ Merge.CEvent (ev_id e) :: w2)).
+      { pose proof (i_tok _ Iall) as H. rewrite ETr, Ea1, Ea2 in H. unfold a_trace in H. cbn [fst snd] in H. exact H. }
+      destruct (MergeProofs.trace_ok_window _ _ _ _ HT) as [_ [Hfs HW]]. cbn in Hfs.
+      assert (Hnr1 : Merge.no_reset sub w1).
+      { intros x Hx. destruct (Hcl1 x Hx) as [[i [z ->]]|[m [Hm Ex]]]; [split; reflexivity|].
+        destruct (Hrest0' m Hm) as [R1 R2]. destruct m; cbn in Ex; inversion Ex; subst; cbn in *; auto. }
+      destruct (seg_clients s1' l2 Hd2s) as [_ Hcl2].
+      assert (Hnr2 : Merge.no_reset sub w2).
+      { intros x Hx. destruct (Hcl2 x Hx) as [[i [z ->]]|[m [Hm Ex]]]; [split; reflexivity|].
+        rewrite Hin1' in Hm. destruct (Hrest1 m Hm) as [R1 R2]. destruct m; cbn in Ex; inversion Ex; subst; cbn in *; auto. }
+      assert (HnrW : Merge.no_reset sub (w1 ++ Merge.CEvent (ev_id e) :: w2)).
+      { intros x Hx. apply in_app_or in Hx as [Hx|[<-|Hx]]; [now apply Hnr1 | split; reflexivity | now apply Hnr2]. }
+      (* the merged EOSE came during l1 *)
+      assert (Eo1 : a_outs a1 = vis (Merge.win_outs ms0 sub fs w1)).
+      { destruct (exec_merge (LNext ord0 :: l1) s0 Ha1) as [_ H]. fold a1 in H. rewrite H.
+        rewrite Ea1. unfold a_trace. cbn [fst snd]. rewrite MergeProofs.outs_cons.
+        rewrite (client_step_silent (y_merge s0) (CReq sub fs) _ eq_refl). reflexivity. }
+      assert (Hw1 : Merge.trace_ok 3 w1) by (now apply MergeProofs.trace_ok_app in HW as [H _]).
+      assert (Ea : Merge.all_eosed 3 sub w1 = true).
+      { pose proof (MergeProofs.eose_exactly_once 3 ms0 sub fs w1 ltac:(lia) Hs0 Hfs Hw1 Hnr1) as Once.
+        assert (H1 : (1 <= count_occ_b (is_eose_sub sub) (a_outs a1))%nat).
+        { apply (count_pos _ _ (SEose sub) HEose). cbn. apply str_eqb_refl. }
+        rewrite Eo1 in H1. rewrite (count_occ_b_vis (is_eose_sub sub) (Merge.is_eose_out sub)) in H1;
+          [|apply is_eose_sub_from|reflexivity].
+        rewrite Once in H1. destruct (Merge.all_eosed 3 sub w1); [reflexivity | lia]. }
+      (* pass-through *)
+      assert (EW : w1 ++ Merge.CEvent (ev_id e) :: w2 =
+                   (w1 ++ Merge.CEvent (ev_id e) :: wa) ++ Merge.Child 1 (Merge.SEvent sub e) :: wb).
+      { rewrite Ew2, <- app_assoc. reflexivity. }
+      rewrite EW in HW, HnrW.
+      pose proof (MergeProofs.post_eose_passthrough 3 ms0 sub fs _ 1%nat e wb ltac:(lia) Hs0 Hfs HW HnrW
+                    (all_eosed_app_mono 3 sub w1 _ Ea)) as Hpass.
+      rewrite <- EW in Hpass. unfold Merge.win_outs in Hpass.
+      set (sr := fst (Merge.merge_step ms0 (Merge.CReq sub fs))) in *.
+      rewrite MergeProofs.outs_app in Hpass.
+      rewrite nth_error_app2 in Hpass by (rewrite MergeProofs.outs_length, app_length; lia).
+      apply nth_error_In in Hpass.
+      (* ... which is part of what the client receives during LNext :: l2 *)
+      assert (Em1 : y_merge s1 = Merge.final sr w1).
+      { destruct (exec_merge (LNext ord0 :: l1) s0 Ha1) as [H _]. fold a1 in H. fold s1 in H. rewrite H.
+        rewrite Ea1. unfold a_trace. cbn [fst snd]. unfold Merge.final at 1. rewrite MergeProofs.exec_cons.
+        cbn [fst]. reflexivity. }
+      destruct (exec_merge (LNext ord :: l2) s1 Ha2) as [_ Ho2]. fold a2 in Ho2. rewrite Ho2.
+      rewrite Ea2. unfold a_trace. cbn [fst snd]. rewrite Em1.
+      apply In_vis. exists (Merge.SEvent sub e). split; [exact Hpass | reflexivity].
+    Qed.
+
+    (* -------------------------------------------------------------- *)
+    (** * 14. SYS_close_silent *)
+
+    Lemma seg_clean sub s0 l :
+      clean sub s0 [] -> (forall m, In m (y_in s0) -> is_req_sub sub m = false) ->
+      y_dead (a_sys (exec_from s0 l)) = false ->
+      clean sub (a_sys (exec_from s0 l)) (a_trace (exec_from s0 l)).
+    Proof.
+      intros Hc Hr Hd.
+      apply (seg_ind (fun s w => (forall m, In m (y_in s) -> In m (y_in s0)) /\ clean sub s w) s0); [| |exact Hd].
+      - split; auto.
+      - intros s w x s' t1 o1 [H1 H2] E Hd'. split.
+        + intros m Hm. apply H1. now apply (step_in _ _ _ _ _ E).
+        + apply (clean_step sub s w x s' t1 o1); auto.
+          intros ord m rest _ _ Hin. apply Hr, H1. rewrite Hin. now left.
+    Qed.
+
+    (** the step that reads a CLOSE, spelled out: no child replies *)
+    Lemma read_close s ord sub rest s' t1 o1 :
+      y_dead s = false -> y_in s = CClose sub :: rest ->
+      step s (LNext ord) = (s', t1, o1) ->
+      t1 = [Merge.CClose sub] /\ o1 = [] /\ y_dead s' = false /\
+      y_merge s' = fst (Merge.merge_step (y_merge s) (Merge.CClose sub)) /\
+      y_in s' = rest /\ y_subs s' = Router.sm_del sub (y_subs s) /\
+      y_p0 s' = y_p0 s /\ y_p1 s' = y_p1 s /\ y_p2 s' = y_p2 s.
+    Proof.
+      intros Hal Hin E. unfold sys_step in E. rewrite Hal, Hin in E.
+      cbn [cache_base client_input sqlite_reply default_reply chan_items router_live router_main router_op
+           Router.reply_of List.map app router_subs_step] in E.
+      rewrite !app_nil_r in E. inversion E; subst. cbn.
+      rewrite (client_step_silent (y_merge s) (CClose sub) _ eq_refl). auto 10.
+    Qed.
+
+    Theorem close_silent l1 ord l2 sub rest :
+      y_dead (a_sys (run (l1 ++ LNext ord :: l2))) = false ->
+      y_in (a_sys (run l1)) = CClose sub :: rest ->
+      (forall m, In m rest -> is_req_sub sub m = false) ->
+      let s1 := a_sys (run l1) in
+      let a2 := exec_from s1 (LNext ord :: l2) in
+      (* reading the CLOSE: nothing to the client, no reply from any child *)
+      (forall s' t1 o1, step s1 (LNext ord) = (s', t1, o1) ->
+         o1 = [] /\ y_p0 s' = y_p0 s1 /\ y_p1 s' = y_p1 s1 /\ y_p2 s' = y_p2 s1) /\
+      (* no merged EOSE for the subscription from then on *)
+      count_occ_b (is_eose_sub sub) (a_outs a2) = 0%nat /\
+      (* and, if nothing labelled with it was still on its way, no event either *)
+      ((forall i z, In z (pend s1 i) -> labelled sub z = false) -> events_for sub (a_outs a2) = []).
+    Proof.
+      intros Hd Hin Hrest s1 a2.
+      pose proof (alive_prefix _ l1 (LNext ord :: l2) Hd) as Hd1.
+      pose proof (inv_run l1 Hd1) as I1. pose proof (inv_run _ Hd) as Iall. fold s1 in I1, Hd1, Hin.
+      assert (Hd2 : y_dead (a_sys a2) = false) by (rewrite exec_app in Hd; exact Hd).
+      assert (Etr : a_trace (run (l1 ++ LNext ord :: l2)) = a_trace (run l1) ++ a_trace a2).
+      { rewrite exec_app. reflexivity. }
+      destruct (step s1 (LNext ord)) as [[s1' t1r] o1r] eqn:Es.
+      destruct (read_close s1 ord sub rest s1' t1r o1r Hd1 Hin Es) as [Et1 [Eo1 [Hd1' [Hm' [Hin' [Hsubs [Hp0 [Hp1 Hp2]]]]]]]].
+      assert (Ea2 : a2 = (a_sys (exec_from s1' l2), Merge.CClose sub :: a_trace (exec_from s1' l2),
+                          a_outs (exec_from s1' l2))).
+      { unfold a2. rewrite exec_cons, Es. cbn [fst snd]. now rewrite Et1, Eo1. }
+      assert (Hd3 : y_dead (a_sys (exec_from s1' l2)) = false) by (rewrite Ea2 in Hd2; exact Hd2).
+      set (w := a_trace (exec_from s1' l2)) in *.
+      set (ms1 := y_merge s1) in *.
+      assert (Eo : a_outs a2 = vis (Merge.outs (fst (Merge.merge_step ms1 (Merge.CClose sub))) w)).
+      { destruct (exec_merge (LNext ord :: l2) s1 Hd2) as [_ H]. fold a2 in H. rewrite H.
+        rewrite Ea2. unfold a_trace. cbn [fst snd]. rewrite MergeProofs.outs_cons.
+        rewrite (client_step_silent (y_merge s1) (CClose sub) _ eq_refl). reflexivity. }
+      assert (Ems1 : ms1 = Merge.final (Merge.init 3) (a_trace (run l1))) by (apply run_merge; exact Hd1).
+      assert (Hs1 : MergeProofs.state_ok 3 ms1).
+      { rewrite Ems1. apply MergeProofs.reach_ok. exact (i_tok _ I1). }
+      assert (HT : Merge.trace_ok 3 (a_trace (run l1) ++ Merge.CClose sub :: w)).
+      { pose proof (i_tok _ Iall) as H. rewrite Etr, Ea2 in H. exact H. }
+      destruct (MergeProofs.trace_ok_window _ _ _ _ HT) as [_ [_ Hw]].
+      destruct (seg_clients s1' l2 Hd3) as [_ Hc]. fold w in Hc.
+      assert (Hnq : MergeProofs.no_req sub w).
+      { intros x Hx. destruct (Hc x Hx) as [[i [z ->]]|[m [Hm Ex]]]; [reflexivity|].
+        rewrite Hin' in Hm. specialize (Hrest m Hm). destruct m; cbn in Ex; inversion Ex; subst; cbn in *; auto. }
+      split; [|split].
+      - intros s' t1 o1 E'. injection E' as <- <- <-. repeat split; assumption.
+      - rewrite Eo. rewrite (count_occ_b_vis (is_eose_sub sub) (Merge.is_eose_out sub));
+          [|apply is_eose_sub_from|reflexivity].
+        now apply (MergeProofs.eose_none_after_close 3).
+      - intro Hnone.
+        assert (Hclean0 : clean sub s1' []).
+        { split; [|split].
+          - intros [|[|[|i]]] z; cbn [pend]; rewrite ?Hp0, ?Hp1, ?Hp2; [apply (Hnone 0%nat)|apply (Hnone 1%nat)|apply (Hnone 2%nat)|intros []].
+          - intros i z [].
+          - rewrite Hsubs. intro Hk. apply RouterLemmas.sm_del_keys_In in Hk. tauto. }
+        assert (Hclean : clean sub (a_sys (exec_from s1' l2)) w).
+        { apply seg_clean; auto. intros m Hm. rewrite Hin' in Hm. now apply Hrest. }
+        destruct Hclean as [_ [C2 _]].
+        rewrite Eo, events_for_vis.
+        destruct (Merge.forwarded sub (Merge.outs (fst (Merge.merge_step ms1 (Merge.CClose sub))) w)) as [|e l0] eqn:Ef; [reflexivity|].
+        exfalso.
+        assert (He : In e (Merge.forwarded sub (Merge.outs (fst (Merge.merge_step ms1 (Merge.CClose sub))) w))) by (rewrite Ef; now left).
+        destruct (fwd_pos sub _ e w He) as [wa [x [wb [Ew Hx]]]].
+        destruct (MergeProofs.subid_preserved _ _ _ Hx) as [i [m0 [Ex Hm0]]]. subst x.
+        assert (Em0 : m0 = Merge.SEvent sub e).
+        { destruct m0; try (symmetry; exact Hm0); destruct Hm0 as [r Hr]; discriminate. }
+        subst m0.
+        assert (Hin_w : In (Merge.SEvent sub e) (del i w)).
+        { apply In_del. rewrite Ew. apply in_or_app. right. now left. }
+        specialize (C2 i _ Hin_w). cbn in C2. now rewrite str_eqb_refl in C2.
+    Qed.
   End Run.
+
+  (* ---------------------------------------------------------------- *)
+  (** * 15. SYS_prom_transparent *)
+
+  Lemma prom_wrap_one {A} (l : list A) : prom_wrap 1 l = l.
+  Proof. unfold prom_wrap. induction l as [|x l IH]; [reflexivity|]. cbn [flat_map]. rewrite IH. reflexivity. Qed.
 End Proofs.
